@@ -312,6 +312,8 @@ pub struct RawTraf {
     pub trun_version: u8,
     pub lead: u8,
     pub samples: Vec<RawSample>,
+    pub has_trun: bool,
+    pub dup_ok: bool,
 }
 
 pub fn raw_traf(max_run: usize) -> impl Strategy<Value = RawTraf> {
@@ -320,8 +322,11 @@ pub fn raw_traf(max_run: usize) -> impl Strategy<Value = RawTraf> {
         (prop::option::of(dur_strategy()), prop::option::of(1u32..100), prop::option::of(any::<u32>()), prop::option::of(1u32..3)),
         (any::<bool>(), any::<bool>(), any::<bool>(), prop::option::of(any::<u32>()), 0u8..2, prop_oneof![3 => Just(0u8), 1 => 1u8..9]),
         prop::collection::vec(raw_sample(), 0..=max_run),
+        (prop::bool::weighted(0.88), prop::bool::weighted(0.3)),
     )
-        .prop_map(|((track_frac, base, tfdt_v1, tfdt_time), (tfhd_dur, tfhd_size, tfhd_flags, tfhd_sdi), (trun_dur, trun_cts, trun_flags, trun_first_flags, trun_version, lead), samples)| RawTraf {
+        .prop_map(|((track_frac, base, tfdt_v1, tfdt_time), (tfhd_dur, tfhd_size, tfhd_flags, tfhd_sdi), (trun_dur, trun_cts, trun_flags, trun_first_flags, trun_version, lead), samples, (has_trun, dup_ok))| RawTraf {
+            has_trun,
+            dup_ok,
             track_frac,
             base,
             tfdt_v1,
@@ -373,7 +378,8 @@ pub fn frag_movie(max_tracks: usize, max_frags: usize, max_run: usize) -> impl S
                 let mut trafs = Vec::new();
                 for (k, rt) in rtrafs.into_iter().enumerate() {
                     let ti = (rt.track_frac as usize * n) >> 16;
-                    if used[ti] {
+                    // usually one traf per track and moof; sometimes a second one for the same track
+                    if used[ti] && !rt.dup_ok {
                         continue;
                     }
                     used[ti] = true;
@@ -390,7 +396,7 @@ pub fn frag_movie(max_tracks: usize, max_frags: usize, max_run: usize) -> impl S
                         }
                     };
                     let tfdt_time = if rt.tfdt_v1 { rt.tfdt_time } else { rt.tfdt_time & 0xffff_ffff };
-                    let samples: Vec<Sample> = rt.samples.iter().map(|r| Sample { size: r.size, dur: r.dur, cts: if rt.trun_cts { r.cts } else { 0 }, sync: r.sync }).collect();
+                    let samples: Vec<Sample> = if rt.has_trun { rt.samples.iter().map(|r| Sample { size: r.size, dur: r.dur, cts: if rt.trun_cts { r.cts } else { 0 }, sync: r.sync }).collect() } else { vec![] };
                     trafs.push(Traf {
                         track: ti,
                         base,
@@ -406,6 +412,8 @@ pub fn frag_movie(max_tracks: usize, max_frags: usize, max_run: usize) -> impl S
                         trun_version: rt.trun_version,
                         lead: rt.lead,
                         samples,
+                        has_trun: rt.has_trun,
+                        trun_size: true,
                     });
                 }
                 fv.push(Fragment { seq: fi as u32 + 1, mdat_first, trafs });
@@ -442,6 +450,10 @@ pub enum YearEnc {
     Text(u32),
     TextPadded(u32),
     Binary(u32),
+    /// binary payload whose length is not 4: not "its 4-byte binary form" -> no year
+    BinaryOdd(Vec<u8>),
+    /// text that is not a decimal number -> no year
+    TextJunk(String),
 }
 
 pub fn meta_strategy() -> impl Strategy<Value = (Meta, MetaExpect)> {
@@ -452,6 +464,8 @@ pub fn meta_strategy() -> impl Strategy<Value = (Meta, MetaExpect)> {
         (0u32..3000).prop_map(YearEnc::Text),
         (0u32..99999).prop_map(YearEnc::TextPadded),
         any::<u32>().prop_map(YearEnc::Binary),
+        prop_oneof![Just(vec![]), Just(vec![7]), Just(vec![0, 7, 216]), Just(vec![0, 0, 7, 216, 1]), Just(vec![0, 0, 7, 216, 0, 0, 0, 0]), prop::collection::vec(any::<u8>(), 5..12)].prop_map(YearEnc::BinaryOdd),
+        prop_oneof![Just(String::new()), Just("year".to_string()), Just("MMVIII".to_string()), "[a-z]{1,6}"].prop_map(YearEnc::TextJunk),
     ]);
     let poster = prop::option::of(prop_oneof![Just(Vec::new()), prop::collection::vec(any::<u8>(), 1..40), prop::collection::vec(any::<u8>(), 4000..4100)]);
     let unknown_items = prop::collection::vec((prop_oneof![Just(cc("\u{a9}too")), Just([0xa9, b'a', b'l', b'b']), Just(cc("trkn")), Just(cc("----")), Just(cc("aART"))], prop::collection::vec(any::<u8>(), 0..20), 0u32..30), 0..5);
@@ -477,12 +491,14 @@ pub fn meta_strategy() -> impl Strategy<Value = (Meta, MetaExpect)> {
             }
             if let Some(y) = &year {
                 let (code, payload, val) = match y {
-                    YearEnc::Text(v) => (1u32, v.to_string().into_bytes(), *v),
-                    YearEnc::TextPadded(v) => (1u32, format!("{:04}", v).into_bytes(), *v),
-                    YearEnc::Binary(v) => (0u32, v.to_be_bytes().to_vec(), *v),
+                    YearEnc::Text(v) => (1u32, v.to_string().into_bytes(), Some(*v)),
+                    YearEnc::TextPadded(v) => (1u32, format!("{:04}", v).into_bytes(), Some(*v)),
+                    YearEnc::Binary(v) => (0u32, v.to_be_bytes().to_vec(), Some(*v)),
+                    YearEnc::BinaryOdd(b) => (0u32, b.clone(), None),
+                    YearEnc::TextJunk(s) => (1u32, s.clone().into_bytes(), None),
                 };
                 items.push(MetaItem { typ: [0xa9, b'd', b'a', b'y'], type_code: code, payload, pre: vec![], post: vec![] });
-                exp.year = Some(val);
+                exp.year = val;
             }
             if let Some(p) = &poster {
                 items.push(MetaItem { typ: cc("covr"), type_code: 13, payload: p.clone(), pre: vec![], post: vec![] });
